@@ -545,7 +545,49 @@ def standin_operation_equality(tier, seed):
                       "==, hash, approx_eq, equal_up_to_global_phase, Circuit / Moment equality",
                 cases=cases, distinct=cases, failures=len(fails), exhaustive=False, _fails=fails[:6])
 standin_operation_equality.prop = "C08"
-STANDINS = [standin_control_values, standin_predicates, standin_operation_equality]
+def standin_periodic_equality(tier, seed):
+    """gates that compare by a canonical exponent (the exponent reduced by a period computed from the global shift): for every family, shifts incl.
+    those giving two different eigen-periods (1, -2, 1/3), and exponents e, e + k: gates that compare equal (==, hash, approx_eq) have equal matrices"""
+    import fractions
+
+    import cirq
+
+    cases, fails = 0, []
+    fams = [("XPowGate", lambda e, s: cirq.XPowGate(exponent=e, global_shift=s)), ("YPowGate", lambda e, s: cirq.YPowGate(exponent=e, global_shift=s)), ("ZPowGate", lambda e, s: cirq.ZPowGate(exponent=e, global_shift=s)),
+            ("HPowGate", lambda e, s: cirq.HPowGate(exponent=e, global_shift=s)), ("CZPowGate", lambda e, s: cirq.CZPowGate(exponent=e, global_shift=s)), ("CXPowGate", lambda e, s: cirq.CXPowGate(exponent=e, global_shift=s)),
+            ("SwapPowGate", lambda e, s: cirq.SwapPowGate(exponent=e, global_shift=s)), ("ISwapPowGate", lambda e, s: cirq.ISwapPowGate(exponent=e, global_shift=s)), ("XXPowGate", lambda e, s: cirq.XXPowGate(exponent=e, global_shift=s)),
+            ("ZZPowGate", lambda e, s: cirq.ZZPowGate(exponent=e, global_shift=s)), ("CCZPowGate", lambda e, s: cirq.CCZPowGate(exponent=e, global_shift=s)), ("CCXPowGate", lambda e, s: cirq.CCXPowGate(exponent=e, global_shift=s)),
+            ("PhasedXPowGate(0.25)", lambda e, s: cirq.PhasedXPowGate(phase_exponent=0.25, exponent=e, global_shift=s)), ("PhasedXPowGate(-0.7)", lambda e, s: cirq.PhasedXPowGate(phase_exponent=-0.7, exponent=e, global_shift=s)),
+            ("ZPowGate(dimension=3)", lambda e, s: cirq.ZPowGate(exponent=e, global_shift=s, dimension=3)), ("XPowGate(dimension=3)", lambda e, s: cirq.XPowGate(exponent=e, global_shift=s, dimension=3))]
+    shifts = [0, 1, -1, -2, 2, 0.5, -0.5, 0.25, fractions.Fraction(1, 3), -1.5]
+    for (fname, mk), s_, e0 in itertools.product(fams, shifts, (0.5, 0.25, 0, 1)):
+        try:
+            gates = [(e0 + k, mk(e0 + k, float(s_))) for k in range(0, 13)]
+        except Exception:
+            continue
+        us = [cirq.unitary(g) for _, g in gates]
+        for (i, (e1, g1)), (j, (e2, g2)) in itertools.combinations(enumerate(gates), 2):
+            cases += 1
+            same = np.allclose(us[i], us[j], atol=1e-8)
+            eq, aeq = g1 == g2, cirq.approx_eq(g1, g2, atol=1e-9)
+            if (eq or aeq) and not same:
+                fails.append(dict(args=dict(family=fname, global_shift=str(s_), exponents=[e1, e2]), failed="equal-gates-different-matrices",
+                                  clause=f"{g1!r} {'==' if eq else 'approx_eq'} {g2!r} although their matrices differ (also beyond a global phase: {not cirq.allclose_up_to_global_phase(us[i], us[j], atol=1e-8)})"))
+                break
+            if eq and hash(g1) != hash(g2):
+                fails.append(dict(args=dict(family=fname, global_shift=str(s_), exponents=[e1, e2]), failed="equal-gates-different-hashes", clause=f"{g1!r} == {g2!r} but their hashes differ"))
+                break
+    seen, uniq = set(), []
+    for f_ in fails:
+        if f_["args"]["family"] not in seen:
+            seen.add(f_["args"]["family"])
+            uniq.append(f_)
+    return dict(function="cirq-core/cirq/ops/{eigen_gate,phased_x_gate}.py[canonical exponent / period]", case="periodic-equality", bound="16 gate families x 10 global shifts x 4 base exponents x all pairs of e, e+1 .. e+12",
+                cases=cases, distinct=cases, failures=len(uniq), exhaustive=True, _fails=uniq[:4])
+standin_periodic_equality.prop = "C08"
+
+
+STANDINS = [standin_control_values, standin_predicates, standin_operation_equality, standin_periodic_equality]
 
 CANARIES = [
     dict(name="EigenGate.__pow__ adds instead of multiplies", file="cirq-core/cirq/ops/eigen_gate.py", engine_check=0,
